@@ -45,6 +45,9 @@ FORBIDDEN = re.compile(
 
 def impl_env(extra=None):
     env = dict(os.environ)
+    # switches of the library that would change the behaviour under test must not leak in
+    for k in ("PYAUTOFIT_TEST_MODE", "USE_JAX", "PYAUTO_WORKSPACE_SMALL_DATASETS"):
+        env.pop(k, None)
     env.update(
         PYTHONPATH=REPO + os.pathsep + os.path.join(VERIF, "harness"),
         PYTHONHASHSEED="0",
